@@ -46,6 +46,9 @@ package lifecycle
 // Start refuses a running pipeline, clears the previous terminal result before the
 // new run is published, and a recovered run inherits the retry bookkeeping.
 //verif:func (*Service).Start(s, ctx, pipelineID) (err)
+//verif:store[a-restart-shares-the-retry-counter-and-backoff] recoveryAttempts requires result_of("csync.(*Map).Get", 1) && newval == result_of("csync.(*Map).Get", 0).recoveryAttempts
+//verif:store[a-restart-shares-the-backoff] backoff requires result_of("csync.(*Map).Get", 1) && newval == result_of("csync.(*Map).Get", 0).backoff
+//verif:never (*Int64).Store
 //verif:call[clear-old-result-before-new-run] (*Service).runPipeline requires called("csync.(*Map).Delete") && succeeded("(*Service).buildRunnablePipeline") && result_of("(*Instance).GetStatus", 0) != StatusRunning
 //verif:call[not-when-running] (*Service).buildRunnablePipeline requires result_of("(*Instance).GetStatus", 0) != StatusRunning
 
